@@ -48,6 +48,9 @@ type hostRec struct {
 	mon        map[key]*repState // live shadow, for the crash comparison
 	inflight   map[uint64][]upd  // worker -> updates inside SaveRaftState right now
 	cut        map[key]upd       // updates that were inside SaveRaftState at the crash instant
+	holdArmed  bool          // the next SaveRaftState with entries waits before it writes
+	holdC      chan struct{} // closed when that save is being held
+	releaseC   chan struct{} // closed to let it go on (or to drop it when the power is gone)
 }
 
 func (h *hostRec) setInflight(worker uint64, uds []pb.Update) {
@@ -137,6 +140,9 @@ func (l *recLogDB) SaveRaftState(uds []pb.Update, worker uint64) error {
 		// was (wrongly) handed over before the save can reach the wire first
 		time.Sleep(l.h.saveDelay)
 	}
+	if l.h.hold(uds) {
+		return nil // the power went while the save was waiting: nothing was written
+	}
 	if len(uds) > 0 {
 		l.h.setInflight(worker, uds)
 	}
@@ -171,6 +177,52 @@ func (h *hostRec) snapshotsRecorded(uds []pb.Update) {
 		h.events = append(h.events, e)
 		h.rep(e.k).step(e)
 	}
+}
+
+// hold: when armed, a SaveRaftState that has entries to save waits (before anything is
+// written) until it is released; returns true when the host lost power meanwhile
+func (h *hostRec) hold(uds []pb.Update) bool {
+	h.mu.Lock()
+	has := false
+	for _, u := range uds {
+		if len(u.EntriesToSave) > 0 {
+			has = true
+		}
+	}
+	if !h.holdArmed || !has {
+		crashed := h.crashed
+		h.mu.Unlock()
+		_ = crashed
+		return false
+	}
+	h.holdArmed = false
+	hc, rc := h.holdC, h.releaseC
+	h.mu.Unlock()
+	close(hc)
+	select {
+	case <-rc:
+	case <-time.After(5 * time.Second):
+	}
+	return h.isCrashed()
+}
+
+// crashNow: power cut at this instant, from the controlling goroutine
+func (h *hostRec) crashNow() {
+	h.mu.Lock()
+	defer h.mu.Unlock()
+	if h.crashed {
+		return
+	}
+	h.crashed = true
+	h.fs.SetIgnoreSyncs(true)
+	h.events = append(h.events, event{kind: 'X'})
+	h.cut = map[key]upd{}
+	for _, l := range h.inflight {
+		for _, u := range l {
+			h.cut[key{u.shard, u.replica}] = u
+		}
+	}
+	close(h.crashedC)
 }
 
 type recLogDBFactory struct {
@@ -294,6 +346,7 @@ type cluster struct {
 	rnd        *vh.Rand
 	completed  map[uint64][]uint64 // shard -> ids of proposals reported Completed
 	compactionOverhead uint64
+	notifyCommit bool
 	beforeStartReplicas func() // called by restartHost after the store was read back
 	nextID     uint64
 	notes      map[string]int
@@ -352,6 +405,7 @@ func (c *cluster) startHost(i int) error {
 	h.ldbf = &recLogDBFactory{inner: inner, h: h.rec}
 	nhc := config.NodeHostConfig{
 		NodeHostDir:    h.dir,
+		NotifyCommit:   c.notifyCommit,
 		RTTMillisecond: 10,
 		RaftAddress:    h.addr,
 		Expert: config.ExpertConfig{
@@ -812,6 +866,118 @@ func exportRun(seed uint64, useTan bool, partial func([]event)) (trace []event, 
 	}
 	if !c.waitLeaders(10 * time.Second) {
 		err = fmt.Errorf("export run: no leader after the restart")
+		return
+	}
+	c.checkCompleted(2 * time.Second)
+	c.propose(2, 2*time.Second)
+	c.close()
+	return
+}
+
+
+// notifyCommitRun: one host, one single-voter shard, NodeHostConfig.NotifyCommit = true. A
+// proposal is made while the log store holds the SaveRaftState that carries its entry. If the
+// proposal is reported Completed (or handed to the state machine) while the save is still
+// waiting, the power is cut at that instant and the save is dropped; otherwise the save is
+// released, the proposal completes and the power is cut afterwards. Restart: every proposal
+// that was reported Completed must be applied (completed-not-durable otherwise).
+func notifyCommitRun(seed uint64, useTan bool, partial func([]event)) (trace []event, notes map[string]int, err error) {
+	c := newClusterN(seed, useTan, 1, 1, 1, 0)
+	c.shards = []uint64{7}
+	c.notifyCommit = true
+	c.beforeStartReplicas = func() {
+		h := c.hosts[0]
+		h.rec.mu.Lock()
+		evs := append([]event(nil), h.rec.events...)
+		h.rec.mu.Unlock()
+		partial(evs)
+	}
+	defer c.close()
+	defer func() {
+		if err == errAborted {
+			err = nil
+		}
+		notes = c.notes
+		h := c.hosts[0]
+		h.rec.mu.Lock()
+		trace = append([]event(nil), h.rec.events...)
+		h.rec.mu.Unlock()
+	}()
+	if err = c.start(); err != nil {
+		return
+	}
+	if !c.waitLeaders(10 * time.Second) {
+		err = fmt.Errorf("notify-commit run: no leader")
+		return
+	}
+	h := c.hosts[0]
+	c.propose(5, 2*time.Second)
+	for round := 0; round < 2; round++ {
+		r := h.rec
+		r.mu.Lock()
+		r.holdArmed = true
+		r.holdC = make(chan struct{})
+		r.releaseC = make(chan struct{})
+		hc, rc := r.holdC, r.releaseC
+		r.mu.Unlock()
+		c.mu.Lock()
+		c.nextID++
+		id := c.nextID
+		c.mu.Unlock()
+		done := make(chan error, 1)
+		go func() {
+			cmd := make([]byte, 8)
+			binary.LittleEndian.PutUint64(cmd, id)
+			ctx, cancel := context.WithTimeout(context.Background(), 4*time.Second)
+			defer cancel()
+			_, e := h.nh.SyncPropose(ctx, h.nh.GetNoOPSession(7), cmd)
+			done <- e
+		}()
+		select {
+		case <-hc:
+		case <-time.After(2 * time.Second):
+			c.note("hold_not_reached")
+			close(rc)
+			<-done
+			continue
+		}
+		// the save of the proposal's entry is waiting: nothing of it is in the log store
+		completedEarly := false
+		select {
+		case e := <-done:
+			if e == nil {
+				completedEarly = true
+			}
+		case <-time.After(300 * time.Millisecond):
+		}
+		if completedEarly {
+			// Completed while the entry is not saved: the power goes NOW, the save is dropped
+			c.mu.Lock()
+			c.completed[7] = append(c.completed[7], id)
+			c.mu.Unlock()
+			c.note("completed_while_save_held")
+			r.crashNow()
+			close(rc)
+			break
+		}
+		close(rc)
+		if e := <-done; e == nil {
+			c.mu.Lock()
+			c.completed[7] = append(c.completed[7], id)
+			c.mu.Unlock()
+			c.note("completed_after_save")
+		}
+	}
+	h.rec.crashNow()
+	h.nh.Close()
+	h.nh = nil
+	h.rec.fs.ResetToSyncedState()
+	h.rec.fs.SetIgnoreSyncs(false)
+	if err = c.restartHost(0); err != nil {
+		return
+	}
+	if !c.waitLeaders(10 * time.Second) {
+		err = fmt.Errorf("notify-commit run: no leader after the restart")
 		return
 	}
 	c.checkCompleted(2 * time.Second)
